@@ -6,3 +6,4 @@ pub mod hashorder;
 pub mod cast;
 pub mod lock;
 pub mod orpat;
+pub mod guard;
